@@ -331,6 +331,14 @@ fn c06_accessors(rep: &mut Report, r: &mut Rng, n: u64) {
         let res = guard(|| {
             let mut p = Packet::new();
             let before = p.get_observe_value();
+            if a % 3 == 0 {
+                // several raw values already there
+                p.add_option(CoapOption::Observe, vec![9]);
+                p.add_option(CoapOption::Observe, vec![8, 8]);
+                p.clear_option(CoapOption::Observe);
+                p.add_option(CoapOption::Observe, vec![7]);
+                p.add_option(CoapOption::Observe, vec![]);
+            }
             p.set_observe_value(a);
             p.set_observe_value(b);
             (before.is_none(), p.get_observe_value().map(|x| x.map_err(|_| ())), p.get_option(CoapOption::Observe).map(|l| l.iter().cloned().collect::<Vec<_>>()))
